@@ -370,7 +370,13 @@ pub fn c17(ctx: &Ctx) -> (Report, Meta) {
                 let mut w = BitW::new();
                 w.put(1029, 12);
                 w.put(0, 12 + 16 + 17);
-                w.put(1, 7);
+                // character counter: the true number of characters when the text is valid UTF-8 (a decoder may
+                // legitimately cross-check it), an arbitrary value otherwise
+                let nchars = if utf8_valid(bytes) { String::from_utf8_lossy(bytes).chars().count() as u64 } else { 1 };
+                if nchars > 127 {
+                    continue;
+                }
+                w.put(nchars, 7);
                 w.put(bytes.len() as u64, 8);
                 for b in bytes {
                     w.put(*b as u64, 8);
